@@ -103,6 +103,20 @@ class Bus:
         self.n_apdu += 1
         return idx, self.plan.get(idx)
 
+    def arm_cmd(self, by_cmd=None):
+        """one-shot faults by command byte (second byte of the APDU): the next exchange of
+        that command gets the fault, whatever its position"""
+        self.cmd_plan = dict(by_cmd or {})
+
+    def cmd_fault(self, cmd, op=None):
+        """keys: a command byte, or (command byte, operation byte)"""
+        plan = getattr(self, "cmd_plan", None)
+        if plan and (cmd, op) in plan:
+            return plan.pop((cmd, op))
+        if plan and cmd in plan:
+            return plan.pop(cmd)
+        return None
+
     def apdus(self, since=0):
         return [e for e in self.events[since:] if e["ev"] == "apdu"]
 
@@ -149,6 +163,8 @@ class Bus:
             if kind in ("timeout", "read_error"):
                 self.last_drop = kind
                 return None
+            if kind == "late":
+                self.last_drop = "late"
             return data, sw
         finally:
             with self.lock:
@@ -216,14 +232,23 @@ class FakeHidDevice:
         if chan != CHANNEL or tag != TAG:
             raise AssertionError("HID fake: bad framing")
         if seq == 0:
-            # a new command: anything left from an earlier exchange is stale
-            self._queue = []
+            # a new command: anything left from an earlier exchange is stale - except
+            # after a late answer (Fault "late"): input reports the host never read stay in
+            # the HID queue, exactly as with hidapi, and are read before the new answer
+            if getattr(self, "_desync", False):
+                self._queue = list(self._queue) + list(getattr(self, "_stale", []))
+                self._stale = []
+            else:
+                self._queue = []
             self._read_error = False
             self._rx = bytearray()
             self._rx_seq = 0
             self._rx_total = struct.unpack(">H", pkt[5:7])[0]
             body = pkt[7:]
+            self._hold = False
             idx, fault = self.bus.begin()
+            if fault is None and len(body) > 1:
+                fault = self.bus.cmd_fault(body[1], body[2] if len(body) > 2 else None)
             self._cur = (idx, fault)
             self._drop = False
             if fault is not None and fault.kind == "write_error":
@@ -249,13 +274,24 @@ class FakeHidDevice:
                     self._read_error = True
             else:
                 d, sw = res
-                self._queue = _frame_response(bytes(d) + struct.pack(">H", sw))
+                framed = _frame_response(bytes(d) + struct.pack(">H", sw))
+                if fault is not None and fault.kind == "late":
+                    # the answer arrives after the host has given up on it
+                    self._stale = list(getattr(self, "_stale", [])) + framed
+                    self._desync = True
+                    self._hold = True
+                elif getattr(self, "_desync", False):
+                    self._queue = list(self._queue) + framed
+                else:
+                    self._queue = framed
         return len(data)
 
     def read(self, n, timeout_ms=0):
         if self._read_error:
             self._read_error = False
             raise OSError("read error")
+        if getattr(self, "_hold", False):
+            return []        # nothing arrives before the host's time-out
         if self._queue:
             return list(self._queue.pop(0))
         return []
@@ -340,6 +376,8 @@ class _FakeSocket:
             apdu = bytes(self._tx[4:4 + n])
             del self._tx[:4 + n]
             idx, fault = self.bus.begin()
+            if fault is None and len(apdu) > 1:
+                fault = self.bus.cmd_fault(apdu[1], apdu[2] if len(apdu) > 2 else None)
             if fault is not None and fault.kind == "write_error":
                 self.bus.log("apdu", i=idx, h=self.handle, apdu=None, data=None,
                              sw=None, fault=repr(fault))
